@@ -212,17 +212,21 @@ Section RSound.
     intro H. unfold max_name.
     assert (Hin : In x (rt_outputs g ++ flat_map (fun n => n_ins n ++ n_caps n ++ n_outs n) (rt_nodes g))).
     { apply in_or_app. destruct H as [H|(n & Hn & Hx)]; [now left | right; apply in_flat_map; eauto]. }
-    clear H. induction (rt_outputs g ++ _) as [|y l IH]; [contradiction|]. simpl. destruct Hin as [->|Hin]; [lia | specialize (IH Hin); lia].
+    clear H. simpl. generalize (pred (rt_next g)). induction (rt_outputs g ++ _) as [|y l IH]; intro k0; [contradiction|]. simpl.
+    destruct Hin as [->|Hin]; [lia | specialize (IH Hin k0); simpl in IH; lia].
   Qed.
+
+  Lemma next_le_max g : pred (rt_next g) <= max_name g.
+  Proof. unfold max_name. simpl. apply Nat.le_max_l. Qed.
 
   Definition mentioned (g : rgraphT) (x : name) : Prop :=
     In x (rt_outputs g) \/ (exists n, In n (rt_nodes g) /\ In x (n_ins n ++ n_caps n ++ n_outs n)).
-  Lemma max_name_le g B : (forall x, mentioned g x -> x <= B) -> max_name g <= B.
+  Lemma max_name_le g B : pred (rt_next g) <= B -> (forall x, mentioned g x -> x <= B) -> max_name g <= B.
   Proof.
-    intro H. unfold max_name.
+    intros Hnx H. unfold max_name. simpl. apply Nat.max_lub; [exact Hnx|].
     assert (Hall : forall x, In x (rt_outputs g ++ flat_map (fun n => n_ins n ++ n_caps n ++ n_outs n) (rt_nodes g)) -> x <= B).
     { intros x Hx. apply H. apply in_app_or in Hx as [Hx|Hx]; [now left | right; apply in_flat_map in Hx as (n & Hn & Hx); eauto]. }
-    clear H. induction (rt_outputs g ++ _) as [|y l IH]; simpl; [lia|].
+    clear H Hnx. induction (rt_outputs g ++ _) as [|y l IH]; simpl; [lia|].
     assert (y <= B) by (apply Hall; now left). assert (fold_right Nat.max 0 l <= B) by (apply IH; intros; apply Hall; now right). lia.
   Qed.
 
@@ -369,10 +373,11 @@ Section RSound.
     Lemma T2_outs : n_outs T2 = [t2o].
     Proof. destruct T2_shape as (y & rv & v2 & _ & Eo & _). unfold t2o. rewrite Eo. reflexivity. Qed.
 
-    Lemma apply_tr_eq : apply_tr g a = mkRT (map trn (filter keepb (rt_nodes g))) (map rhoR (rt_outputs g)) const'.
+    Definition next' : name := match ra_axes a with AxInput _ => S fresh | _ => rt_next g end.
+    Lemma apply_tr_eq : apply_tr_env g a = mkRT (map trn (filter keepb (rt_nodes g))) (map rhoR (rt_outputs g)) const' next'.
     Proof.
-      unfold apply_tr. fold T1 red T2. rewrite Hsrc, Hro. unfold out1. rewrite T2_outs. cbn [hd_error]. fold fresh.
-      cbn [replace_all_uses g_nodes g_outputs]. f_equal.
+      unfold apply_tr_env. fold T1 red T2. rewrite Hsrc, Hro. unfold out1. rewrite T2_outs. cbn [hd_error]. fold fresh.
+      cbn [replace_all_uses g_nodes g_outputs]. fold next'. f_equal.
       rewrite map_map. fold red'.
       assert (Hgen : forall l, filter (fun n => negb (leqb (n_outs n) [t2o])) (map (fun x => subst_node t2o ro (if node_eqb x red then red' else x)) l)
                                = map trn (filter keepb l)).
@@ -571,18 +576,18 @@ Section RSound.
       exists v. rewrite (rho_other x Hx2). split; [exact Hx|]. apply rel_other; [exact Hxr | apply teq_refl].
     Qed.
 
-    Lemma tr_env : exists ef', evalg (rt_nodes (apply_tr g a)) e = Some ef' /\ rinv V rhoR relR ef ef'.
+    Lemma tr_env : exists ef', evalg (rt_nodes (apply_tr_env g a)) e = Some ef' /\ rinv V rhoR relR ef ef'.
     Proof.
       rewrite apply_tr_eq. cbn [rt_nodes].
       apply (sim_env V sem (rinv V rhoR relR) keepb trn (rt_nodes g) e ef Hssa rinv_start Hev).
       intros pre n post em em' e1 Hsplit Hpre Hle Hi Hs Hle1. exact (tr_node_step pre n post em em' e1 Hsplit Hpre Hle Hi Hs Hle1).
     Qed.
 
-    Lemma tr_ssa : ssa V (rt_nodes (apply_tr g a)) e.
+    Lemma tr_ssa : ssa V (rt_nodes (apply_tr_env g a)) e.
     Proof. rewrite apply_tr_eq. cbn [rt_nodes]. apply (ssa_sim V keepb trn (rt_nodes g) e trn_outs Hssa). Qed.
 
     Lemma tr_run o : run V sem (rt_graph g) e = Some o ->
-      exists o', run V sem (rt_graph (apply_tr g a)) e = Some o' /\ Forall2 teq o o'.
+      exists o', run V sem (rt_graph (apply_tr_env g a)) e = Some o' /\ Forall2 teq o o'.
     Proof.
       unfold run, rt_graph. cbn [g_nodes g_outputs]. rewrite Hev. intro Hl.
       destruct tr_env as (ef' & Hev' & Hi). rewrite Hev'. rewrite apply_tr_eq. cbn [rt_outputs].
@@ -590,7 +595,7 @@ Section RSound.
       exact (rel_list_teq _ _ _ not_obs_out Hrl).
     Qed.
 
-    Lemma mentioned_new x : mentioned (apply_tr g a) x -> mentioned g x \/ (x = fresh /\ exists l, ra_axes a = AxInput l).
+    Lemma mentioned_new x : mentioned (apply_tr_env g a) x -> mentioned g x \/ (x = fresh /\ exists l, ra_axes a = AxInput l).
     Proof.
       assert (Hro_m : mentioned g ro).
       { right. exists red. split; [exact Hredin|]. destruct red_shape as (_ & _ & _ & Eo & _). rewrite Eo. apply in_or_app. right. apply in_or_app. right. now left. }
@@ -628,13 +633,14 @@ Section RSound.
             -- apply Hnm. apply in_or_app. right. apply in_or_app. now right.
     Qed.
 
-    Lemma tr_const ef' x l v : evalg (rt_nodes (apply_tr g a)) e = Some ef' -> x <= max_name (apply_tr g a) ->
-      rt_const (apply_tr g a) x = Some l -> ef' x = Some v -> denoteZ v = Some l.
+    Lemma tr_const ef' x l v : evalg (rt_nodes (apply_tr_env g a)) e = Some ef' -> x <= max_name (apply_tr_env g a) ->
+      rt_const (apply_tr_env g a) x = Some l -> ef' x = Some v -> denoteZ v = Some l.
     Proof.
       intros Hev' Hb Hc Hx. destruct tr_env as (ef0 & Hev0 & Hi). rewrite Hev' in Hev0. injection Hev0 as <-.
       destruct red_shape as (_ & _ & _ & Eor & _). pose proof Hfresh as Hfresh0.
-      assert (Hbound : max_name (apply_tr g a) <= match ra_axes a with AxInput _ => fresh | _ => max_name g end).
-      { apply max_name_le. intros y Hy. destruct (mentioned_new y Hy) as [Hm|[-> (l0 & El)]].
+      assert (Hbound : max_name (apply_tr_env g a) <= match ra_axes a with AxInput _ => fresh | _ => max_name g end).
+      { apply max_name_le; [rewrite apply_tr_eq; cbn [rt_next]; unfold next'; pose proof (next_le_max g); destruct (ra_axes a); simpl; lia|].
+        intros y Hy. destruct (mentioned_new y Hy) as [Hm|[-> (l0 & El)]].
         - assert (y <= max_name g) by (apply max_name_ge; exact Hm). destruct (ra_axes a); unfold fresh; lia.
         - rewrite El. lia. }
       rewrite apply_tr_eq in Hc. cbn [rt_const] in Hc. unfold const' in Hc.
@@ -675,7 +681,7 @@ Section RSound.
 
     (* the values of the rewritten run, name by name: the reducer's output now holds what T2's output held, every other
        name an equivalent value *)
-    Lemma tr_frame ef' y a' : evalg (rt_nodes (apply_tr g a)) e = Some ef' -> ef' y = Some a' ->
+    Lemma tr_frame ef' y a' : evalg (rt_nodes (apply_tr_env g a)) e = Some ef' -> ef' y = Some a' ->
       (y = ro /\ exists v, ef t2o = Some v /\ teq v a') \/ (y <> ro /\ exists v, ef y = Some v /\ teq v a').
     Proof.
       intros Hev' Hy. destruct tr_env as (ef0 & Hev0 & Hi). rewrite Hev' in Hev0. injection Hev0 as <-.
@@ -700,7 +706,7 @@ Section RSound.
     Qed.
 
     Lemma tr_rm : (forall n y, In n (rt_nodes g) -> is_rm n = true -> In y (n_outs n) -> rt_const g y = None) ->
-      forall n y, In n (rt_nodes (apply_tr g a)) -> is_rm n = true -> In y (n_outs n) -> rt_const (apply_tr g a) y = None.
+      forall n y, In n (rt_nodes (apply_tr_env g a)) -> is_rm n = true -> In y (n_outs n) -> rt_const (apply_tr_env g a) y = None.
     Proof.
       intros Hold n' y Hn' Hr Hy. rewrite apply_tr_eq in Hn' |- *. cbn [rt_nodes rt_const] in *.
       apply in_map_iff in Hn' as (n & <- & Hn). apply filter_In in Hn as [Hn _]. rewrite trn_outs in Hy.
@@ -756,18 +762,18 @@ Section RSound.
     - exact Hr.
   Qed.
 
-  Lemma apply_tr_const g a x : (forall l, ra_axes a = AxInput l -> x <> S (max_name g)) -> rt_const (apply_tr g a) x = rt_const g x.
+  Lemma apply_tr_const g a x : (forall l, ra_axes a = AxInput l -> x <> S (max_name g)) -> rt_const (apply_tr_env g a) x = rt_const g x.
   Proof.
-    intro H. unfold apply_tr. destruct (first_in (ra_T1 a)); [|reflexivity]. destruct (out1 (ra_red a)); [|reflexivity].
+    intro H. unfold apply_tr_env. destruct (first_in (ra_T1 a)); [|reflexivity]. destruct (out1 (ra_red a)); [|reflexivity].
     destruct (out1 (ra_T2 a)); [|reflexivity]. cbn [rt_const]. destruct (ra_axes a) as [|l|l]; auto.
     destruct (Nat.eqb_spec x (S (max_name g))) as [E|_]; [|reflexivity]. destruct (H l eq_refl E).
   Qed.
 
   (* ONE REWRITE *)
   Theorem tr_action_sound g T2 a e ef : radm g e -> In T2 (rt_nodes g) -> decide_tr g T2 = Some a -> evalg (rt_nodes g) e = Some ef ->
-    radm (apply_tr g a) (ext_env g a e) /\
+    radm (apply_tr_env g a) (ext_env g a e) /\
     (forall o, run V sem (rt_graph g) e = Some o ->
-       exists o', run V sem (rt_graph (apply_tr g a)) (ext_env g a e) = Some o' /\ Forall2 teq o o').
+       exists o', run V sem (rt_graph (apply_tr_env g a)) (ext_env g a e) = Some o' /\ Forall2 teq o o').
   Proof.
     intros Hadm HT2in Hdec Hev.
     destruct (decide_tr_facts g T2 a Hdec) as (p & q & xin & rin & rrest & ro & src & HeT2 & HT2 & Hi2 & Ho2 & Hpx & Hrm & Hir & HpT1 & HT1 & Hp1 & Hp2 &
@@ -807,7 +813,7 @@ Section RSound.
   (* the values of the rewritten run of ONE rewrite, name by name (for the annotations other passes read) *)
   Theorem tr_action_frame g T2 a e ef : radm g e -> In T2 (rt_nodes g) -> decide_tr g T2 = Some a -> evalg (rt_nodes g) e = Some ef ->
     exists ro t2o, out1 (ra_red a) = Some ro /\ out1 (ra_T2 a) = Some t2o /\
-      forall ef' y a', evalg (rt_nodes (apply_tr g a)) (ext_env g a e) = Some ef' -> ef' y = Some a' ->
+      forall ef' y a', evalg (rt_nodes (apply_tr_env g a)) (ext_env g a e) = Some ef' -> ef' y = Some a' ->
         (y = S (max_name g) /\ exists l, ra_axes a = AxInput l /\ a' = mkZ (map Z.of_nat l)) \/
         (y = ro /\ exists v, ef t2o = Some v /\ teq v a') \/ (y <> ro /\ exists v, ef y = Some v /\ teq v a').
   Proof.
@@ -868,7 +874,7 @@ Section RSound.
   Definition env_ext (g' : rgraphT) (e e' : env V) : Prop :=
     forall x, e' x = e x \/ exists l v, rt_const g' x = Some l /\ e' x = Some v /\ denoteZ v = Some l.
 
-  Lemma env_ext_step g T2 a e0 e : decide_tr g T2 = Some a -> env_ext g e0 e -> env_ext (apply_tr g a) e0 (ext_env g a e).
+  Lemma env_ext_step g T2 a e0 e : decide_tr g T2 = Some a -> env_ext g e0 e -> env_ext (apply_tr_env g a) e0 (ext_env g a e).
   Proof.
     intros Hdec H x.
     destruct (decide_tr_facts g T2 a Hdec) as (p & q & xin & rin & rrest & ro & src & HeT2 & HT2 & Hi2 & Ho2 & Hpx & Hrm & Hir & HpT1 & HT1 & Hp1 & Hp2 &
@@ -878,37 +884,206 @@ Section RSound.
     - rewrite apply_tr_const by (intros l0 El; congruence). apply H.
     - destruct (Nat.eq_dec x (S (max_name g))) as [->|Hne].
       + right. exists (map Z.of_nat l), (mkZ (map Z.of_nat l)). split; [|split; [unfold upd; now rewrite Nat.eqb_refl | apply denote_mkZ]].
-        unfold apply_tr. rewrite Hsrc, Hro, HeT2. unfold out1. destruct (n_outs T2) as [|o2 or2]; [congruence|]. cbn [hd_error rt_const].
+        unfold apply_tr_env. rewrite Hsrc, Hro, HeT2. unfold out1. destruct (n_outs T2) as [|o2 or2]; [congruence|]. cbn [hd_error rt_const].
         rewrite Eax. now rewrite Nat.eqb_refl.
       + rewrite apply_tr_const by (intros l0 _; exact Hne). unfold upd. destruct (Nat.eqb_spec x (S (max_name g))); [contradiction|]. apply H.
   Qed.
 
-  (* THE PASS: for every graph that is admissible when the pass starts, in the environment extended by the created initializers *)
-  Theorem tr_pass_sound : forall fuel g e0 e, radm g e -> env_ext g e0 e ->
-    forall o, run V sem (rt_graph g) e = Some o ->
-    exists e' o', env_ext (tr_pass fuel g) e0 e' /\ run V sem (rt_graph (tr_pass fuel g)) e' = Some o' /\ Forall2 teq o o'.
+  (* ================================================================ THE REWRITE of the pass: the re-mapped axes are a Constant node *)
+  (* a Constant node with that payload evaluates to the integer vector *)
+  Hypothesis Hconstant : forall l, sem "Constant"%string (5 :: map (fun k => 2 * k) l) [] = Some [mkZ (map Z.of_nat l)].
+
+  (* every name the environment defines is below the graph's counter (the created name is unused) *)
+  Definition tight (g : rgraphT) (e : env V) : Prop := forall x, rt_next g <= x -> e x = None.
+
+  (* a source node whose output nobody before it reads can be moved into the environment *)
+  Lemma const_node_as_env pre post x op ats v (e ef : env V) : sem op ats [] = Some [v] ->
+    (forall n y, In n pre -> In y (n_uses n) -> y <> x) -> ~ In x (defs pre) ->
+    evalg (pre ++ post) (upd V e x v) = Some ef ->
+    exists ef', evalg (pre ++ mkNode op ats [] [] [x] :: post) e = Some ef' /\ forall y, ef' y = ef y.
   Proof.
-    induction fuel as [|k IH]; intros g e0 e Hadm Hext o Hrun.
-    - exists e, o. split; [exact Hext|]. split; [exact Hrun|]. clear. induction o; constructor; auto. apply teq_refl.
+    intros Hs Hu Hd Hev. rewrite eval_app in Hev. destruct (evalg pre (upd V e x v)) as [em1|] eqn:Epre; [|discriminate].
+    destruct (eval_agree V sem [x] pre (upd V e x v) e em1 (agree_sym [x] _ _ (agree_upd e x v))) as (em & Hem & Hag); auto.
+    { intros n y Hn Hy [E|[]]. exact (Hu n y Hn Hy (eq_sym E)). }
+    rewrite eval_app, Hem. cbn [eval]. unfold step. cbn [n_uses n_ins n_caps app lookups n_op n_attrs n_outs]. rewrite Hs. cbn [length Nat.eqb upds].
+    assert (Hpt : agree_except V [] em1 (upd V em x v)).
+    { intros y _. unfold upd. destruct (Nat.eqb_spec y x) as [->|Hne].
+      - apply (eval_mono V sem pre (upd V e x v) em1 x v Epre); [unfold upd; now rewrite Nat.eqb_refl | exact Hd].
+      - apply Hag. intros [E|[]]. congruence. }
+    destruct (eval_agree V sem [] post em1 (upd V em x v) ef Hpt (fun _ _ _ _ H => H) Hev) as (ef' & Hev' & Hag').
+    exists ef'. split; [exact Hev'|]. intro y. symmetry. apply Hag'. intros [].
+  Qed.
+
+  Lemma insert_before_split y c : forall ns n, NoDup (defs ns) -> In n ns -> In y (n_outs n) ->
+    exists pre post, ns = pre ++ n :: post /\ insert_before y c ns = pre ++ c :: n :: post /\ ~ In n pre.
+  Proof.
+    unfold insert_before, defs. induction ns as [|m r IH]; intros n Hnd Hn Hy; [contradiction|]. simpl in Hnd.
+    assert (Hr : NoDup (flat_map n_outs r)) by (eapply NoDup_app_r; eauto).
+    destruct (existsb (Nat.eqb y) (n_outs m)) eqn:Em.
+    - pose proof Em as Em'. apply existsb_exists in Em as (y' & Hy' & E). apply Nat.eqb_eq in E. subst y'.
+      assert (n = m).
+      { destruct Hn as [<-|Hn]; auto. exfalso. eapply (NoDup_app_disj (n_outs m)); eauto. apply in_flat_map; eauto. }
+      subst m. exists [], r. cbn [flat_map app]. rewrite Em'. cbn [app]. split; [reflexivity|]. split; [|tauto]. f_equal. f_equal.
+      clear - Hnd Hy. induction r as [|m r IHr]; [reflexivity|]. simpl in *.
+      assert (Hnm : existsb (Nat.eqb y) (n_outs m) = false).
+      { destruct (existsb (Nat.eqb y) (n_outs m)) eqn:E; auto. apply existsb_exists in E as (y' & Hy' & E). apply Nat.eqb_eq in E. subst y'.
+        exfalso. eapply (NoDup_app_disj (n_outs n)); eauto. apply in_or_app. now left. }
+      rewrite Hnm. simpl. f_equal. apply IHr. clear - Hnd. 
+      assert (H : NoDup (n_outs n ++ flat_map n_outs r)).
+      { revert Hnd. generalize (n_outs n) as l. induction l as [|a l IHl]; simpl; intro H; [eapply NoDup_app_r; eauto|].
+        inversion H as [|? ? Hni Hnd']; subst. constructor; [|now apply IHl]. intro Hin. apply Hni. apply in_app_or in Hin as [Hin|Hin]; apply in_or_app; [now left | right; apply in_or_app; now right]. }
+      exact H.
+    - destruct Hn as [<-|Hn].
+      + exfalso. assert (existsb (Nat.eqb y) (n_outs m) = true) by (apply existsb_exists; exists y; split; auto; apply Nat.eqb_refl). congruence.
+      + destruct (IH n Hr Hn Hy) as (pre & post & -> & E & Hnp). exists (m :: pre), post. cbn [flat_map app]. rewrite Em, E. cbn [app]. split; [reflexivity|]. split; [reflexivity|].
+        intros [E1|H]; [|contradiction]. rewrite E1 in Em.
+        assert (existsb (Nat.eqb y) (n_outs n) = true) by (apply existsb_exists; exists y; split; auto; apply Nat.eqb_refl). congruence.
+  Qed.
+
+  Theorem tr_step_sound g T2 a e ef : radm g e -> tight g e -> In T2 (rt_nodes g) -> decide_tr g T2 = Some a -> evalg (rt_nodes g) e = Some ef ->
+    radm (apply_tr g a) e /\ tight (apply_tr g a) e /\
+    (forall o, run V sem (rt_graph g) e = Some o -> exists o', run V sem (rt_graph (apply_tr g a)) e = Some o' /\ Forall2 teq o o').
+  Proof.
+    intros Hadm Htight HT2in Hdec Hev.
+    destruct (tr_action_sound g T2 a e ef Hadm HT2in Hdec Hev) as [Hadm' Hr].
+    destruct (decide_tr_facts g T2 a Hdec) as (p & q & xin & rin & rrest & ro & src & HeT2 & HT2 & Hi2 & Ho2 & Hpx & Hrm & Hir & HpT1 & HT1 & Hp1 & Hp2 &
+      Hinvok & Hkd & Hax & Hro & Hsrc & Hobs & Hcons & Hcaps & Hlen).
+    assert (Hout2 : exists t2o, out1 (ra_T2 a) = Some t2o).
+    { rewrite HeT2. unfold out1. destruct (n_outs T2) as [|t2o0 tr0]; [congruence|]. exists t2o0. reflexivity. }
+    destruct Hout2 as [t2o Ht2o].
+    assert (Hnext_env : rt_next (apply_tr_env g a) = match ra_axes a with AxInput _ => S (S (max_name g)) | _ => rt_next g end).
+    { unfold apply_tr_env. rewrite Hsrc, Hro, Ht2o. reflexivity. }
+    unfold apply_tr. rewrite Hsrc, Hro, Ht2o. unfold ext_env in *.
+    destruct (ra_axes a) as [|l|l] eqn:Eax.
+    - split; [exact Hadm'|]. split; [|exact Hr]. intros x Hx. apply Htight. rewrite Hnext_env in Hx. exact Hx.
+    - split; [exact Hadm'|]. split; [|exact Hr]. intros x Hx. apply Htight. rewrite Hnext_env in Hx. exact Hx.
+    - set (fresh := S (max_name g)) in *. set (gx := apply_tr_env g a) in *. set (vC := mkZ (map Z.of_nat l)) in *.
+      assert (Hfresh_free : e fresh = None) by (apply Htight; pose proof (next_le_max g); unfold fresh; lia).
+      pose proof (ra_ssa _ _ Hadm') as Hssa1.
+      (* the reducer of the rewritten graph *)
+      assert (Hred : exists n, In n (rt_nodes gx) /\ In ro (n_outs n) /\ In fresh (n_ins n)).
+      { unfold gx, apply_tr_env. rewrite Hsrc, Hro, Ht2o, Eax. cbn [rt_nodes replace_all_uses g_nodes].
+        exists (subst_node t2o ro (mkNode (n_op (ra_red a)) (n_attrs (ra_red a)) (src :: fresh :: tl (tl (n_ins (ra_red a)))) (n_caps (ra_red a)) (n_outs (ra_red a)))).
+        assert (Hro_out : In ro (n_outs (ra_red a))) by (unfold out1 in Hro; destruct (n_outs (ra_red a)); [discriminate | injection Hro as ->; now left]).
+        assert (Hft : fresh <> t2o).
+        { intro E. assert (Hb : t2o <= max_name g).
+          { apply max_name_ge. right. exists (ra_T2 a). split; [rewrite HeT2; exact HT2in|]. apply in_or_app. right. apply in_or_app. right.
+            unfold out1 in Ht2o. destruct (n_outs (ra_T2 a)); [discriminate | injection Ht2o as ->; now left]. }
+          unfold fresh in E. lia. }
+        split; [|split].
+        - apply filter_In. split.
+          + apply in_map_iff. exists (mkNode (n_op (ra_red a)) (n_attrs (ra_red a)) (src :: fresh :: tl (tl (n_ins (ra_red a)))) (n_caps (ra_red a)) (n_outs (ra_red a))).
+            split; [reflexivity|]. apply in_map_iff. exists (ra_red a). split; [now rewrite node_eqb_refl | exact (proj1 (producer_spec _ _ _ Hpx))].
+          + cbn [subst_node n_outs]. apply negb_true_iff. destruct (leqb (n_outs (ra_red a)) (n_outs (ra_T2 a))) eqn:El; [|reflexivity]. exfalso.
+            apply leqb_eq in El.
+            assert (Ht2def : In ro (n_outs T2)) by (rewrite <- HeT2, <- El; exact Hro_out).
+            pose proof (defs_unique (rt_nodes g) (ra_red a) T2 ro (proj1 (ra_ssa _ _ Hadm)) (proj1 (producer_spec _ _ _ Hpx)) HT2in Hro_out Ht2def) as E.
+            rewrite E in Hrm. unfold is_rm in Hrm. unfold is_T in HT2. apply String.eqb_eq in Hrm, HT2. congruence.
+        - cbn [subst_node n_outs]. exact Hro_out.
+        - cbn [subst_node n_ins map]. right. left. unfold rn. destruct (Nat.eqb_spec fresh t2o); [contradiction | reflexivity]. }
+      destruct Hred as (rn' & Hrn_in & Hrn_out & Hrn_fresh).
+      destruct (insert_before_split ro (const_node l fresh) (rt_nodes gx) rn' (proj1 Hssa1) Hrn_in Hrn_out) as (pre & post & Hsplit & Hins & Hnpre).
+      (* nobody before the reducer mentions the created name, and no node defines it *)
+      assert (Hfresh_def : ~ In fresh (defs (rt_nodes gx))).
+      { intro Hin. pose proof (proj2 Hssa1 fresh Hin) as Hn. unfold upd in Hn. rewrite Nat.eqb_refl in Hn. discriminate. }
+      assert (Hpre_uses : forall n y, In n pre -> In y (n_uses n) -> y <> fresh).
+      { intros n y Hn Hy ->.
+        (* n reads the created name before the reducer: in the run of the env-version graph that is fine, but n is then the
+           reducer itself (the only node mentioning the name), which is not in pre *)
+        assert (Hn_in : In n (rt_nodes gx)) by (rewrite Hsplit; apply in_or_app; now left).
+        unfold gx, apply_tr_env in Hn_in. rewrite Hsrc, Hro, Ht2o, Eax in Hn_in. cbn [rt_nodes replace_all_uses g_nodes] in Hn_in.
+        apply filter_In in Hn_in as [Hn_in _]. apply in_map_iff in Hn_in as (n1 & <- & Hn1). apply in_map_iff in Hn1 as (n0 & <- & Hn0).
+        destruct (node_eqb n0 (ra_red a)) eqn:En0.
+        - apply node_eqb_eq in En0. subst n0. apply Hnpre.
+          (* same node as rn': both produce ro *)
+          assert (E : subst_node t2o ro (mkNode (n_op (ra_red a)) (n_attrs (ra_red a)) (src :: fresh :: tl (tl (n_ins (ra_red a)))) (n_caps (ra_red a)) (n_outs (ra_red a))) = rn').
+          { apply (defs_unique (rt_nodes gx) _ rn' ro (proj1 Hssa1)); auto.
+            - rewrite Hsplit. apply in_or_app. now left.
+            - cbn [subst_node n_outs]. unfold out1 in Hro. destruct (n_outs (ra_red a)); [discriminate | injection Hro as ->; now left]. }
+          rewrite <- E. exact Hn.
+        - (* an old node: its names are old *)
+          unfold n_uses in Hy. cbn [subst_node n_ins n_caps] in Hy. rewrite <- map_app in Hy. apply in_map_iff in Hy as (y0 & Ey & Hy0).
+          assert (Hb0 : y0 <= max_name g).
+          { apply max_name_ge. right. exists n0. split; auto. apply in_app_or in Hy0 as [H|H]; apply in_or_app; [now left | right; apply in_or_app; now left]. }
+          assert (Hbro : ro <= max_name g).
+          { apply max_name_ge. right. exists (ra_red a). split; [exact (proj1 (producer_spec _ _ _ Hpx))|]. apply in_or_app. right. apply in_or_app. right.
+            unfold out1 in Hro. destruct (n_outs (ra_red a)); [discriminate | injection Hro as ->; now left]. }
+          unfold rn in Ey. unfold fresh in Ey. destruct (Nat.eqb y0 t2o); lia. }
+      assert (Hpre_def : ~ In fresh (defs pre)).
+      { intro Hin. apply Hfresh_def. rewrite Hsplit. unfold defs in *. rewrite flat_map_app. apply in_or_app. now left. }
+      assert (Hsim : forall ef1, evalg (rt_nodes gx) (upd V e fresh vC) = Some ef1 ->
+                exists ef2, evalg (insert_before ro (const_node l fresh) (rt_nodes gx)) e = Some ef2 /\ forall y, ef2 y = ef1 y).
+      { intros ef1 Hev1. rewrite Hins. rewrite Hsplit in Hev1.
+        exact (const_node_as_env pre (rn' :: post) fresh "Constant"%string _ vC e ef1 (Hconstant l) Hpre_uses Hpre_def Hev1). }
+      split; [|split].
+      + (* admissible *)
+        destruct Hadm' as [_ Hcx Hrmx]. split; cbn [rt_nodes rt_const].
+        * split.
+          -- rewrite Hins. unfold defs. rewrite flat_map_app. cbn [flat_map const_node n_outs app].
+             pose proof (proj1 Hssa1) as Hnd. rewrite Hsplit in Hnd. unfold defs in Hnd. rewrite flat_map_app in Hnd. cbn [flat_map] in Hnd.
+             apply (NoDup_Add (Add_app fresh (flat_map n_outs pre) (n_outs rn' ++ flat_map n_outs post))). split; [exact Hnd|].
+             intro Hin. apply Hfresh_def. rewrite Hsplit. unfold defs. rewrite flat_map_app. exact Hin.
+          -- intros y Hy. rewrite Hins in Hy. unfold defs in Hy. rewrite flat_map_app in Hy. cbn [flat_map const_node n_outs app] in Hy.
+             apply in_app_or in Hy as [Hy|[<-|Hy]]; [| exact Hfresh_free |].
+             ++ assert (Hd : In y (defs (rt_nodes gx))) by (rewrite Hsplit; unfold defs; rewrite flat_map_app; apply in_or_app; now left).
+                pose proof (proj2 Hssa1 y Hd) as Hn. unfold upd in Hn. destruct (Nat.eqb y fresh); [discriminate | exact Hn].
+             ++ assert (Hd : In y (defs (rt_nodes gx))) by (rewrite Hsplit; unfold defs; rewrite flat_map_app; apply in_or_app; right; exact Hy).
+                pose proof (proj2 Hssa1 y Hd) as Hn. unfold upd in Hn. destruct (Nat.eqb y fresh); [discriminate | exact Hn].
+        * intros ef2 x l0 v Hev2 Hb Hc Hx.
+          (* the run of the env-version graph has the same values *)
+          assert (Hev1 : exists ef1, evalg (rt_nodes gx) (upd V e fresh vC) = Some ef1 /\ forall y, ef2 y = ef1 y).
+          { rewrite Hins in Hev2. rewrite eval_app in Hev2. destruct (evalg pre e) as [em|] eqn:Epre; [|discriminate].
+            cbn [eval] in Hev2. unfold step at 1 in Hev2. cbn [n_uses n_ins n_caps app lookups n_op n_attrs n_outs const_node] in Hev2.
+            rewrite (Hconstant l) in Hev2. cbn [length Nat.eqb upds] in Hev2.
+            destruct (eval_agree V sem [fresh] pre e (upd V e fresh vC) em (agree_upd e fresh vC)) as (em1 & Hem1 & Hag1); auto.
+            { intros n y Hn Hy [E|[]]. exact (Hpre_uses n y Hn Hy (eq_sym E)). }
+            assert (Hpt : agree_except V [] (upd V em fresh vC) em1).
+            { intros y _. unfold upd. destruct (Nat.eqb_spec y fresh) as [->|Hne].
+              - symmetry. apply (eval_mono V sem pre (upd V e fresh vC) em1 fresh vC Hem1); [unfold upd; now rewrite Nat.eqb_refl | exact Hpre_def].
+              - apply Hag1. intros [E|[]]. congruence. }
+            destruct (eval_agree V sem [] (rn' :: post) (upd V em fresh vC) em1 ef2 Hpt (fun _ _ _ _ H => H) Hev2) as (ef1 & Hev1 & Hag).
+            exists ef1. split; [rewrite Hsplit, eval_app, Hem1; exact Hev1|]. intro y. apply Hag. intros []. }
+          destruct Hev1 as (ef1 & Hev1 & Hsame). rewrite Hsame in Hx.
+          apply (Hcx ef1 x l0 v Hev1); auto.
+          (* the bound: the new graph mentions the same names *)
+          eapply Nat.le_trans; [exact Hb|]. apply max_name_le.
+          -- cbn [rt_next]. apply next_le_max.
+          -- intros y [Hy|(n & Hn & Hy)].
+             ++ apply max_name_ge. now left.
+             ++ cbn [rt_nodes] in Hn. rewrite Hins in Hn. apply in_app_or in Hn as [Hn|[<-|Hn]].
+                ** apply max_name_ge. right. exists n. split; auto. rewrite Hsplit. apply in_or_app. now left.
+                ** cbn [const_node n_ins n_caps n_outs app] in Hy. destruct Hy as [<-|[]]. apply max_name_ge. right. exists rn'. split; auto.
+                   apply in_or_app. now left.
+                ** apply max_name_ge. right. exists n. split; auto. rewrite Hsplit. apply in_or_app. right. exact Hn.
+        * intros n y Hn Hrmn Hy. rewrite Hins in Hn. apply in_app_or in Hn as [Hn|[<-|Hn]].
+          -- apply (Hrmx n y); auto. rewrite Hsplit. apply in_or_app. now left.
+          -- unfold is_rm, nop in Hrmn. vm_compute in Hrmn. discriminate.
+          -- apply (Hrmx n y); auto. rewrite Hsplit. apply in_or_app. right. exact Hn.
+      + intros x Hx. apply Htight. cbn [rt_next] in Hx. rewrite Hnext_env in Hx. pose proof (next_le_max g). unfold fresh in *. lia.
+      + intros o Hrun. destruct (Hr o Hrun) as (o' & Hrun' & Ho'). exists o'. split; [|exact Ho'].
+        unfold run in *. cbn [rt_graph g_nodes g_outputs rt_nodes rt_outputs] in *.
+        destruct (evalg (rt_nodes gx) (upd V e fresh vC)) as [ef1|] eqn:Hev1; [|discriminate].
+        destruct (Hsim ef1 eq_refl) as (ef2 & Hev2 & Hsame). rewrite Hev2. rewrite <- Hrun'.
+        apply (lookups_agree V [] ef2 ef1). intros y _. apply Hsame. intros; tauto.
+  Qed.
+
+  (* THE PASS: plain refinement, for every graph that is admissible when the pass starts *)
+  Theorem tr_pass_sound : forall fuel g e, radm g e -> tight g e -> refines V teq sem (rt_graph g) (rt_graph (tr_pass fuel g)) e.
+  Proof.
+    induction fuel as [|k IH]; intros g e Hadm Ht o Hrun.
+    - exists o. split; [exact Hrun|]. clear. induction o; constructor; auto. apply teq_refl.
     - cbn [tr_pass]. unfold tr_step. destruct (first_some (decide_tr g) (rt_nodes g)) as [a|] eqn:Efs; cbn [option_map].
       + destruct (first_some_spec _ _ _ Efs) as (T2 & HT2in & Hdec).
         assert (Hev : exists ef, evalg (rt_nodes g) e = Some ef).
         { unfold run in Hrun. cbn [rt_graph g_nodes] in Hrun. destruct (evalg (rt_nodes g) e); [eauto | discriminate]. }
         destruct Hev as [ef Hev].
-        destruct (tr_action_sound g T2 a e ef Hadm HT2in Hdec Hev) as [Hadm' Hr].
+        destruct (tr_step_sound g T2 a e ef Hadm Ht HT2in Hdec Hev) as (Hadm' & Ht' & Hr).
         destruct (Hr o Hrun) as (o1 & Hrun1 & Ho1).
-        destruct (IH (apply_tr g a) e0 (ext_env g a e) Hadm' (env_ext_step g T2 a e0 e Hdec Hext) o1 Hrun1) as (e' & o' & He' & Hrun' & Ho').
-        exists e', o'. split; [exact He'|]. split; [exact Hrun'|].
+        destruct (IH (apply_tr g a) e Hadm' Ht' o1 Hrun1) as (o' & Hrun' & Ho').
+        exists o'. split; [exact Hrun'|].
         clear - Ho1 Ho'. revert o' Ho'. induction Ho1 as [|x y l l' Hxy _ IHl]; intros o' Ho'; inversion Ho'; subst; constructor; eauto using teq_trans.
-      + exists e, o. split; [exact Hext|]. split; [exact Hrun|]. clear. induction o; constructor; auto. apply teq_refl.
+      + exists o. split; [exact Hrun|]. clear. induction o; constructor; auto. apply teq_refl.
   Qed.
-
-  Lemma env_ext_refl g e : env_ext g e e.
-  Proof. intro x. now left. Qed.
-
-  Corollary tr_pass_sound_start fuel g e : radm g e -> forall o, run V sem (rt_graph g) e = Some o ->
-    exists e' o', env_ext (tr_pass fuel g) e e' /\ run V sem (rt_graph (tr_pass fuel g)) e' = Some o' /\ Forall2 teq o o'.
-  Proof. intros Hadm o Hrun. exact (tr_pass_sound fuel g e e Hadm (env_ext_refl g e) o Hrun). Qed.
 End RSound.
 
 (* ---- the statements with the hypotheses packaged *)
@@ -943,9 +1118,9 @@ Theorem transpose_reduce_action_sound (A : Type) sem :
   forall mkZ : list Z -> tensor A, (forall l, denoteZ (mkZ l) = Some l) ->
   forall g T2 a e ef, radm A sem denoteZ g e -> In T2 (rt_nodes g) -> decide_tr g T2 = Some a ->
     eval (tensor A) sem (rt_nodes g) e = Some ef ->
-    radm A sem denoteZ (apply_tr g a) (ext_env A mkZ g a e) /\
+    radm A sem denoteZ (apply_tr_env g a) (ext_env A mkZ g a e) /\
     (forall o, run (tensor A) sem (rt_graph g) e = Some o ->
-       exists o', run (tensor A) sem (rt_graph (apply_tr g a)) (ext_env A mkZ g a e) = Some o' /\ Forall2 teq o o').
+       exists o', run (tensor A) sem (rt_graph (apply_tr_env g a)) (ext_env A mkZ g a e) = Some o' /\ Forall2 teq o o').
 Proof.
   intros Hp Ht reduce (H1 & H2 & H3 & H4) denoteZ Hd (Hr1 & Hr2) mkZ Hm.
   exact (tr_action_sound A sem Hp Ht reduce H1 H2 H3 H4 denoteZ Hd Hr1 Hr2 mkZ Hm).
@@ -960,7 +1135,7 @@ Theorem transpose_reduce_action_frame (A : Type) sem :
   forall g T2 a e ef, radm A sem denoteZ g e -> In T2 (rt_nodes g) -> decide_tr g T2 = Some a ->
     eval (tensor A) sem (rt_nodes g) e = Some ef ->
     exists ro t2o, out1 (ra_red a) = Some ro /\ out1 (ra_T2 a) = Some t2o /\
-      forall ef' y a', eval (tensor A) sem (rt_nodes (apply_tr g a)) (ext_env A mkZ g a e) = Some ef' -> ef' y = Some a' ->
+      forall ef' y a', eval (tensor A) sem (rt_nodes (apply_tr_env g a)) (ext_env A mkZ g a e) = Some ef' -> ef' y = Some a' ->
         (y = S (max_name g) /\ exists l, ra_axes a = AxInput l /\ a' = mkZ (map Z.of_nat l)) \/
         (y = ro /\ exists v, ef t2o = Some v /\ teq v a') \/ (y <> ro /\ exists v, ef y = Some v /\ teq v a').
 Proof.
@@ -968,31 +1143,33 @@ Proof.
   exact (tr_action_frame A sem Hp Ht reduce H1 H2 H3 H4 denoteZ Hd Hr1 Hr2 mkZ Hm).
 Qed.
 
+Definition sem_constant_spec (A : Type) (sem : string -> list nat -> list (tensor A) -> option (list (tensor A))) (mkZ : list Z -> tensor A) : Prop :=
+  forall l, sem "Constant"%string (5 :: map (fun k => 2 * k) l) [] = Some [mkZ (map Z.of_nat l)].
+
 Theorem transpose_reduce_pass_sound (A : Type) sem :
   (forall op ats vs vs' o, Forall2 teq vs vs' -> sem op ats vs = Some o -> exists o', sem op ats vs' = Some o' /\ Forall2 teq o o') ->
   sem_transpose_spec A sem op_type ->
   forall reduce, reduce_laws A reduce ->
   forall denoteZ, (forall v v', teq v v' -> denoteZ v = denoteZ v') -> sem_reducemean_spec A sem op_type denoteZ reduce ->
-  forall mkZ : list Z -> tensor A, (forall l, denoteZ (mkZ l) = Some l) ->
-  forall fuel g e, radm A sem denoteZ g e ->
-    forall o, run (tensor A) sem (rt_graph g) e = Some o ->
-    exists e' o', env_ext A denoteZ (tr_pass fuel g) e e' /\
-                  run (tensor A) sem (rt_graph (tr_pass fuel g)) e' = Some o' /\ Forall2 teq o o'.
+  forall mkZ : list Z -> tensor A, (forall l, denoteZ (mkZ l) = Some l) -> sem_constant_spec A sem mkZ ->
+  forall fuel g e, radm A sem denoteZ g e -> tight A g e ->
+    refines (tensor A) teq sem (rt_graph g) (rt_graph (tr_pass fuel g)) e.
 Proof.
-  intros Hp Ht reduce (H1 & H2 & H3 & H4) denoteZ Hd (Hr1 & Hr2) mkZ Hm.
-  exact (tr_pass_sound_start A sem Hp Ht reduce H1 H2 H3 H4 denoteZ Hd Hr1 Hr2 mkZ Hm).
+  intros Hp Ht reduce (H1 & H2 & H3 & H4) denoteZ Hd (Hr1 & Hr2) mkZ Hm Hc.
+  exact (tr_pass_sound A sem Hp Ht reduce H1 H2 H3 H4 denoteZ Hd Hr1 Hr2 mkZ Hm Hc).
 Qed.
 
 (* non-vacuity of the modelled decision: axes = [1] (attribute form) and axes = [-1] (input form, constant 9) under perm [1;0] *)
 Example tr_reduce_folded_attr :
   let g := mkRT [mkNode "Transpose" [1; 1; 0] [1] [] [2]; mkNode "ReduceMean" [2; 1; 2] [2] [] [3]; mkNode "Transpose" [1; 1; 0] [3] [] [4]] [4]
-               (fun _ => None) in
+               (fun _ => None) 0 in
   rt_nodes (tr_pass 5 g) = [mkNode "Transpose" [1; 1; 0] [1] [] [2]; mkNode "ReduceMean" [2; 1; 0] [1] [] [3]] /\ rt_outputs (tr_pass 5 g) = [3].
 Proof. vm_compute. split; reflexivity. Qed.
 
 Example tr_reduce_folded_input :
   let g := mkRT [mkNode "Transpose" [1; 1; 0] [1] [] [2]; mkNode "ReduceMean" [2; 0] [2; 9] [] [3]; mkNode "Transpose" [1; 1; 0] [3] [] [4]] [4]
-               (fun x => if Nat.eqb x 9 then Some [(-1)%Z] else None) in
-  rt_nodes (tr_pass 5 g) = [mkNode "Transpose" [1; 1; 0] [1] [] [2]; mkNode "ReduceMean" [2; 0] [1; 10] [] [3]] /\ rt_outputs (tr_pass 5 g) = [3] /\
+               (fun x => if Nat.eqb x 9 then Some [(-1)%Z] else None) 0 in
+  rt_nodes (tr_pass 5 g) = [mkNode "Transpose" [1; 1; 0] [1] [] [2]; mkNode "Constant" [5; 0] [] [] [10]; mkNode "ReduceMean" [2; 0] [1; 10] [] [3]] /\
+  rt_outputs (tr_pass 5 g) = [3] /\
   rt_const (tr_pass 5 g) 10 = Some [0%Z].
 Proof. vm_compute. repeat split; reflexivity. Qed.
